@@ -1219,9 +1219,14 @@ fn judge(entry: &str, dname: &str, name: &str, sql: &str, c: &[bool], got: &Resu
     };
     if &fresh == got {
         if entry == "linter" {
-            // the two entry points disagree, reused and never-used linter agree: not this property
+            // reused and never-used linter agree with each other but not with Parser::new on a dialect that only saw these
+            // switches: something outside (dialect, input, switches) decides the tree - e.g. an answer remembered process-wide
             buf.count("config_history_linter_vs_parser_entry_differences", 1);
-            buf.direct(&cls, true, "", "", Value::Null);
+            if *listed < 4 {
+                *listed += 1;
+                let key = format!("config-history:entry-points:{}:{:016x}", dname, h64(&format!("{}{:?}", sql, c)));
+                buf.direct("config-history:entry-points", false, &key, "a never-used Linter built with these indentation switches (and the reused one) gives another tree than Parser::new with the same switches on a dialect instance that only ever saw them: something besides dialect, input and switches decides the tree", json!({"kind": "config-history", "entry": "linter", "dialect": dname, "name": name, "sql": sql, "config": cfg_json(c), "history": hist, "linter": outcome(got), "parser": outcome(want), "first_difference": super::first_diff(text_of(want), text_of(got))}));
+            }
             return;
         }
         // the instance that only ever parsed under this configuration is the odd one: repeated parses on one instance
